@@ -545,7 +545,7 @@ func (c *Ctx) rulePruneHandleClosed(rule string) {
 
 func runC13(c *Ctx) {
 	p, r := c.P, c.R
-	r.Explanation = "Decides on every path of the three stock sinks: writer.Sink and FileSink acknowledge (nil, nil) only after writing a reader over exactly the bytes Event.Format returned for the configured format (JSON when unset), once — or once more after rewinding the same reader when the first write failed — with the sink mutex held for writing, with the (last) write's error tested nil; a missing format or a failing write is an error; FileSink's /dev/null returns (nil, nil) without touching a file and stdout/stderr select os.Stdout/os.Stderr; ChannelSink.Process is one blocking select with exactly three arms — send of the very event parameter on the sink's channel -> (nil, nil), <-ctx.Done() -> (nil, ctx.Err()), <-time.After(timeout) -> (nil, non-nil) — no default and no other blocking instruction. Behaviour of the supplied io.Writer and real-time bounds are not decided. C13.ctor: NewChannelSink stores exactly its arguments after both guards. C13.format Format:reads-table: Event.Format answers from the format table itself, under Event.l. C13.recover: a recovered panic of a Writer reaches the error result. C13.file handle-closed: pruneFiles only where no path leaves a file open. C13.file nil-handle: the handle is dereferenced only where found non-nil."
+	r.Explanation = "Decides on every path of the three stock sinks: writer.Sink and FileSink acknowledge (nil, nil) only after writing a reader over exactly the bytes Event.Format returned for the configured format (JSON when unset), once — or once more after rewinding the same reader when the first write failed — with the sink mutex held for writing, with the (last) write's error tested nil; a missing format or a failing write is an error; FileSink's /dev/null returns (nil, nil) without touching a file and stdout/stderr select os.Stdout/os.Stderr; ChannelSink.Process is one blocking select with exactly three arms — send of the very event parameter on the sink's channel -> (nil, nil), <-ctx.Done() -> (nil, ctx.Err()), <-time.After(timeout) -> (nil, non-nil) — no default and no other blocking instruction. Behaviour of the supplied io.Writer and real-time bounds are not decided. C13.ctor: NewChannelSink stores exactly its arguments after both guards. C13.format Format:reads-table: Event.Format answers from the format table itself, under Event.l. C13.recover: a recovered panic of a Writer reaches the error result. C13.file handle-closed: pruneFiles only where no path leaves a file open. C13.file nil-handle: the handle is dereferenced only where found non-nil. C13.format: no stored entry is rewritten in place."
 	r.NotDecided = []string{"behaviour of user-supplied io.Writers (short writes, buffering)", "real-time bounds of the timeout"}
 	c.lockControls()
 	// --- C13.writer
@@ -555,6 +555,9 @@ func runC13(c *Ctx) {
 	}
 	// --- C13.file
 	c.ruleFormatFromTable("C13.format")
+	// "exactly the bytes stored": a sink writes the slice Format handed it after it released the event's lock —
+	// nothing rewrites a stored entry in place (C14.table / C19.table under C13)
+	c.ruleFormatTableWrites("C13.format")
 	c.ruleRecoverResults("C13.recover", []string{PkgRoot, PkgWriter, PkgChannel}, false)
 	if fn := c.Fn("C13.file", PkgRoot, "FileSink", "Process"); fn != nil {
 		c.ruleSinkAck("C13.file", fn, "eventlogger.FileSink.l", fileSinkWriter, fileSinkSpecial)
@@ -1083,7 +1086,7 @@ func runC14(c *Ctx) {
 		ok := false
 		eachInstr(fa, func(in ssa.Instruction) {
 			if mu, isMu := in.(*ssa.MapUpdate); isMu {
-				if tb.Of(mu.Key).IsParam("1:formatType") && tb.Of(mu.Value).IsParam("2:formattedValue") && tb.Of(mu.Map).Is("Field", "Formatted") {
+				if tb.Of(mu.Key).IsParam("1:formatType") && tb.Of(mu.Map).Is("Field", "Formatted") && (tb.Of(mu.Value).IsParam("2:formattedValue") || freshCopyOf(mu.Value, fa.Params[2])) {
 					ok = true
 				}
 			}
@@ -2246,6 +2249,31 @@ func isWriteCount(t *Term) bool {
 			}
 		}
 		return true
+	}
+	return false
+}
+
+// freshCopyOf: v is a slice freshly made with the length of src and filled by copy(v, src) — the
+// event's own copy of the bytes it is given — or append onto a nil / empty fresh slice.
+func freshCopyOf(v ssa.Value, src ssa.Value) bool {
+	switch x := v.(type) {
+	case *ssa.MakeSlice:
+		ln, ok := x.Len.(*ssa.Call)
+		if !ok || calleeName(&ln.Call) != "builtin len" || len(ln.Call.Args) != 1 || ln.Call.Args[0] != src {
+			return false
+		}
+		for _, ref := range nonDebugRefs(x) {
+			if call, ok := ref.(*ssa.Call); ok && calleeName(&call.Call) == "builtin copy" && len(call.Call.Args) == 2 && call.Call.Args[0] == ssa.Value(x) && call.Call.Args[1] == src {
+				return true
+			}
+		}
+	case *ssa.Call:
+		// append([]byte(nil), src...)
+		if calleeName(&x.Call) == "builtin append" && len(x.Call.Args) == 2 && x.Call.Args[1] == src {
+			if isNilConst(x.Call.Args[0]) {
+				return true
+			}
+		}
 	}
 	return false
 }
